@@ -583,7 +583,7 @@ package plugin
 //@   nopanic [C06.total] [C09.total] [C20.nopanic]
 //@   bounded peer-dead [C09.timer]
 //@   requires m.session != nil && !held(m.Mutex)
-//@   modifies heap, yaccepts, tokens, ackr, pkey, ch_owner
+//@   modifies heap, yaccepts, tokens, ackr, pkey, ch_owner, conns_open
 //@   after select#1 set tokens := ite(index == 0, tokens - 1, tokens)
 //@   loop#1 invariant tokens == at_loop(tokens) && !held(m.Mutex)   [C09.own]
 //@   at go#1 assert arg1 == wtag_read && arg2 != nil && pkey[arg2] == wtag_read   [C06.park]
